@@ -85,6 +85,12 @@ unsafe impl GlobalAlloc for Counting {
 #[global_allocator]
 static GLOBAL: Counting = Counting;
 
+/// Used by the other in-process drivers (rdbload)
+pub fn counting(on: bool) { ON.store(on, Ordering::SeqCst); }
+pub fn current() -> isize { CUR.load(Ordering::Relaxed) }
+pub fn peak() -> isize { PEAK.load(Ordering::Relaxed) }
+pub fn reset_peak() { PEAK.store(CUR.load(Ordering::Relaxed), Ordering::Relaxed); }
+
 /// Accounting of the heap attributable to the code under test: `win` runs a piece of it.
 struct Meter {
     retained: isize,
